@@ -1,6 +1,8 @@
 (* C03 — correspondence cases.  A case is a user-level template tree, two parameter assignments (the second one is a
    variant of the first: extra names added / irrelevant values changed), the set of dropped channels, and what the real
-   code did: sorted `parameter_names` and the kind of outcome of `create_program` for both assignments.
+   code did: sorted `parameter_names`, the kind of outcome of `create_program` for both assignments, and `same`:
+   when both calls returned a program, whether the two programs are equal (loop structure, repetition counts,
+   measurement windows, sampled voltages of every waveform; compared by the harness).
    check_corr: the operational model (Model.v) reproduces the observation.
    check_spec: the property's clauses evaluated from the independent specification (Spec.v: visible constraints,
                needed values) on the implementation's observation. *)
@@ -14,7 +16,7 @@ Inductive outcome := OProg | ONone | OMissing | OViolated | OOther.
 Inductive case :=
 | CCase (p : pt) (drop : list ident) (names : list ident)
         (values : list (ident * Q)) (out : outcome)
-        (values2 : list (ident * Q)) (out2 : outcome)
+        (values2 : list (ident * Q)) (out2 : outcome) (same : bool)
 | CCrash.
 
 Definition outcome_eqb (a b : outcome) : bool :=
@@ -39,17 +41,29 @@ Definition is_error (o : outcome) : bool :=
 
 (* With every declared name supplied the outcome kinds must agree exactly.  With a declared name absent several
    errors can apply at once (missing parameter / violated constraint); which one is raised first is an order of
-   evaluation the property does not fix, so only "some error" is compared there. *)
+   evaluation the property does not fix, so only "some error" is compared there (a harmless reordering of the checks
+   must stay silent).  check_corr_exact below is the exact comparison; it is not part of the verdict. *)
 Definition outcome_match (names : list ident) (values : list (ident * Q)) (model impl : outcome) : bool :=
   outcome_eqb model impl
   || (negb (subset names (map fst values)) && is_error model && is_error impl).
 
 Definition check_corr (c : case) : bool :=
   match c with
-  | CCase p drop names values out values2 out2 =>
+  | CCase p drop names values out values2 out2 _ =>
       set_eqb (pnames (construct p)) names
       && outcome_match names values (outcome_of (create_program p values drop)) out
       && outcome_match names values2 (outcome_of (create_program p values2 drop)) out2
+  | CCrash => false
+  end.
+
+(* exact outcome kinds also for incomplete assignments: the model follows the order of evaluation of the code as it is
+   (validate_scope before the reads, keys()/as_dict() forcing, eager mapping inside atomic parents).  Measured by
+   `tools`-free experiment `c03.exact_order_report` (notes/C03.md); not gating. *)
+Definition check_corr_exact (c : case) : bool :=
+  match c with
+  | CCase p drop names values out values2 out2 _ =>
+      outcome_eqb (outcome_of (create_program p values drop)) out
+      && outcome_eqb (outcome_of (create_program p values2 drop)) out2
   | CCrash => false
   end.
 
@@ -84,10 +98,19 @@ Definition agree_on (names : list ident) (v1 v2 : list (ident * Q)) : bool :=
 
 Definition check_spec (c : case) : bool :=
   match c with
-  | CCase p drop names values out values2 out2 =>
+  | CCase p drop names values out values2 out2 same =>
       spec_one p drop names values out
       && spec_one p drop names values2 out2
-      (* (b) values of undeclared names never change the result *)
-      && (if agree_on names values values2 then outcome_eqb out out2 else true)
+      (* (b) values of undeclared names never change the result: same kind of outcome, equal programs *)
+      && (if agree_on names values values2 then outcome_eqb out out2 && same else true)
   | CCrash => false
+  end.
+
+(* the executable guard of the known finding function-zero-factor-hides-missing-parameter on the user-level tree, for
+   both assignments: the harness classifies a case rejected by check_spec as the known finding iff this is false *)
+Definition check_guard (c : case) : bool :=
+  match c with
+  | CCase p drop _ values _ values2 _ _ =>
+      guard_C03_function_zero p (env_of values) drop && guard_C03_function_zero p (env_of values2) drop
+  | CCrash => true
   end.
